@@ -308,7 +308,8 @@ def loop_rule(index, rep, rule="C08.LOOP", reloc_rule="C08.LOOP"):
         n += 1
         grown = obj.attrs["KCALS_GROWN"].items
         base = obj.attrs["NO_RELOCATION_KCALS_GROWN"].items
-        gt1 = any(k.replace(" ", "").startswith("(-1+<r>)>0") and v for k, v in dec.items())
+        from .symx import leaf_implies
+        gt1 = leaf_implies(it, dec, r - Rat.const(1), ">")      # the path knows ratio > 1 (whichever way round the test is written)
         arm = "r>1" if gt1 else "r<=1"
         rep.check(idxs.get("cycle") in ("<mod,<i>,12>",) and idxs.get("red") == "<i>", rule, f"indices[{arm}]",
                   f"month i does not take calendar month i mod 12 and reduction i (got cycle index {idxs.get('cycle')}, reduction index {idxs.get('red')})",
@@ -328,16 +329,17 @@ def loop_rule(index, rep, rule="C08.LOOP", reloc_rule="C08.LOOP"):
     okas = False
     for a_ in [x for x in walk_no_nested(loop) if isinstance(x, ast.Assert)]:
         t_ = a_.test
-        if not (isinstance(t_, ast.Compare) and len(t_.ops) == 1 and isinstance(t_.ops[0], ast.GtE)):
+        if not (isinstance(t_, ast.Compare) and len(t_.ops) == 1 and isinstance(t_.ops[0], (ast.GtE, ast.LtE))):
             continue
+        big, small = (t_.left, t_.comparators[0]) if isinstance(t_.ops[0], ast.GtE) else (t_.comparators[0], t_.left)
         good = 0
         for _, dec, res, it in envs:
             if isinstance(res, Abort):
                 continue
             obj, idxs = res
             try:
-                lhs = it.to_rat(it.eval(t_.left, it.last_env))
-                rhs = it.to_rat(it.eval(t_.comparators[0], it.last_env))
+                lhs = it.to_rat(it.eval(big, it.last_env))
+                rhs = it.to_rat(it.eval(small, it.last_env))
             except Exception:
                 good = -1
                 break
@@ -514,7 +516,8 @@ def form_greenhouse(index, rep):
             continue
         env, idx, grown = res
         n += 1
-        gt1 = any(k.replace(" ", "").startswith("(-1+<r>)>0") and v for k, v in dec.items())
+        from .symx import leaf_implies
+        gt1 = leaf_implies(it, dec, r - Rat.const(1), ">")
         arm = "r>1" if gt1 else "r<=1"
         ok = len(grown) == 1 and len(grown[0][1]) == 1 and idx.get("red") == "<i>"
         if ok:
